@@ -31,7 +31,7 @@ func init() { drivers["lruconc"] = driveLruConc }
 type lcProc struct {
 	id      int
 	busy    bool
-	key     int // inner key of the creation this caller is parked in
+	key     int         // inner key of the creation this caller is parked in
 	gate    chan string // create callback parked here: "ok" / "fail"
 	parked  bool
 	started int
